@@ -50,7 +50,8 @@ def gen_cases(rng, tier):
                 D = rng.choice([-1, 1]) * rng.uniform(0.05, 4.0) * Dscale
                 D2 = rng.choice([-1, 1]) * rng.uniform(0.05, 4.0) * Dscale
                 cases.append({"kind": "dm", "n": n, "npol": npol, "sps": sps, "R": R, "gv": g, "dark": dark, "D": D, "D2": D2,
-                              "noise": rng.random() < 0.4, "seed": rng.getrandbits(32)})
+                              "noise": rng.random() < 0.4, "seed": rng.getrandbits(32),
+                              "dtype": rng.choice(["complex", "complex", "float", "int", "complex64"])})
                 L = rng.uniform(0.5, 100.0)
                 L2 = rng.uniform(0.5, 100.0)
                 b2 = rng.choice([-1, 1, 1, -1, 0]) * rng.uniform(0.05, 4.0) * Dscale / L
@@ -59,7 +60,8 @@ def gen_cases(rng, tier):
                 if b2 == 0 and rng.random() < 0.7:
                     b3 = 0.0          # dispersion-free span (loss only, or nothing at all)
                 cases.append({"kind": "fiber", "n": n, "npol": npol, "sps": sps, "R": R, "gv": g, "dark": dark, "alpha": alpha, "b2": b2, "b3": b3,
-                              "L": L, "L2": L2, "noise": rng.random() < 0.4, "seed": rng.getrandbits(32)})
+                              "L": L, "L2": L2, "noise": rng.random() < 0.4, "seed": rng.getrandbits(32),
+                              "dtype": rng.choice(["complex", "complex", "float", "int", "complex64"])})
     for n in ([5, 8, 9] if tier == "quick" else lens):
         g = rng.choice(gvs)
         cases.append({"kind": "reth", "n": n, "npol": 1, "sps": g.get("sps"), "R": g.get("R"), "gv": g,
@@ -79,11 +81,23 @@ def _fs_of(g):
     return g["fs"] if "fs" in g else g.get("R", 1e9) * g.get("sps", 16)
 
 
+def _single(case):
+    """results of a complex64 container are rounded to single precision once per device call: tolerances follow the dtype"""
+    return case.get("dtype") == "complex64"
+
+
 def _field(case):
     r = np.random.default_rng(case["seed"])
     shape = (case["n"],) if case["npol"] == 1 else (2, case["n"])
     s = r.normal(size=shape) + 1j * r.normal(size=shape)
     nz = (r.normal(size=shape) + 1j * r.normal(size=shape)) * 0.1 if case["noise"] else None
+    dt = case.get("dtype", "complex")
+    if dt == "float":            # real-valued field kept in float64 (optical_signal keeps the dtype it is given)
+        s = np.ascontiguousarray(s.real * 1.5)
+    elif dt == "int":
+        s = np.round(s.real * 20).astype(np.int64)
+    elif dt == "complex64":
+        s = s.astype(np.complex64)
     d = case.get("dark")
     if d == "all":
         s = s * 0
@@ -180,7 +194,7 @@ def model_requests(case, res):
     return [f"fiber.lin {enc_f(fs)} {enc_f(case['alpha'])} {enc_f(case['b2'])} {enc_f(case['b3'])} {enc_f(case['L'])} {_enc_rows(res['inp'])}"]
 
 
-def _cmp_rows(name, reply, rows, n):
+def _cmp_rows(name, reply, rows, n, rel=1e-9):
     if not reply.startswith("ok "):
         return [f"{name}: model reply {reply[:80]}"]
     t = Toks(reply[3:])
@@ -193,7 +207,7 @@ def _cmp_rows(name, reply, rows, n):
             return [f"{name} row {r}: length {len(mr)} vs {len(iv)}"]
         scale = max(1.0, max(abs(z) for z in iv))
         for k, (a, b) in enumerate(zip(mr, iv)):
-            if not (abs(a - b) <= 1e-9 * scale * max(1, n)):
+            if not (abs(a - b) <= rel * scale * max(1, n)):
                 return [f"{name} row {r} sample {k}: model {a!r} impl {b!r}"]
     return []
 
@@ -211,8 +225,8 @@ def compare(case, res, reqs, replies):
                 out.append("retH differs between model and implementation")
         else:
             out.append(f"model reply {replies[0][:60]}")
-        return out + _cmp_rows("DM output", replies[1], res["out"], n)
-    return _cmp_rows(case["kind"] + " output", replies[0], res["out"], n)
+        return out + _cmp_rows("DM output", replies[1], res["out"], n, 3e-6 if _single(case) else 1e-9)
+    return _cmp_rows(case["kind"] + " output", replies[0], res["out"], n, 3e-6 if _single(case) else 1e-9)
 
 
 def oracle(case, res):
@@ -231,7 +245,9 @@ def oracle(case, res):
     fs = _fs_of(_gv_of(case))
     if not (abs(res["fs"] - fs) <= 1e-9 * fs):
         v.append(("C07:fs", f"gv.fs={res['fs']} but the configured sampling rate is {fs}"))
-    eps = 2.2e-16 * 64 * max(1, n)
+    eps = (1.2e-7 if _single(case) else 2.2e-16) * 64 * max(1, n)
+    r9 = 3e-6 if _single(case) else 1e-9          # "1e-9 relative" of the double-precision path
+    r12 = 3e-6 if _single(case) else 1e-12
     a = np.array([[complex(p, q) for p, q in row] for row in res["inp"]])
     o = np.array([[complex(p, q) for p, q in row] for row in res["out"]])
     scale = max(1.0, float(np.max(np.abs(a))))
@@ -242,7 +258,7 @@ def oracle(case, res):
         if H.shape != Href.shape or not (np.max(np.abs(H - Href)) <= 1e-9):
             v.append(("C07:retH", "retH does not match exp(-j w^2 D/2) on the fftshift-ed grid"))
         ref = np.fft.ifft(np.fft.fft(a, axis=-1) * np.fft.ifftshift(H), axis=-1)
-        if not (np.max(np.abs(ref - o)) <= 1e-9 * scale * n):
+        if not (np.max(np.abs(ref - o)) <= r9 * scale * n):
             v.append(("C07:retH-applied", "the response returned by retH is not the filter that was applied"))
         return v
     if case["kind"] == "dm":
@@ -252,7 +268,7 @@ def oracle(case, res):
         wp = w * 1e-12
         H = np.exp((-ap / 2 - 1j * case["b2"] * wp ** 2 / 2 - 1j * case["b3"] * wp ** 3 / 6) * case["L"])
     ref = np.fft.ifft(np.fft.fft(a, axis=-1) * H, axis=-1)
-    tol = 1e-9 * scale * n + (2e-5 * case.get("alpha", 0) * case.get("L", 0) / 4.343) * scale
+    tol = r9 * scale * n + (2e-5 * case.get("alpha", 0) * case.get("L", 0) / 4.343) * scale
     if o.shape != ref.shape or not (np.max(np.abs(o - ref)) <= tol):
         v.append((f"C07:{case['kind']}-filter", f"{case['kind']} output differs from the LTI reference filter by {np.max(np.abs(o - ref)):.3e} (n={n})"))
     if res["cls"] != "optical_signal" or res["npol"] != case["npol"] or res["shape"] != list(a.shape if case["npol"] == 2 else (n,)):
@@ -261,7 +277,7 @@ def oracle(case, res):
         v.append(("C07:input-modified", "the input object was modified"))
     e_in, e_out = np.array(res["e_in"]), np.array(res["e_out"])
     if case["kind"] == "dm":
-        if not np.all(np.abs(e_out - e_in) <= 1e-12 * n * np.maximum(1.0, e_in)):
+        if not np.all(np.abs(e_out - e_in) <= r12 * n * np.maximum(1.0, e_in)):
             v.append(("C07:dm-energy", f"DM changed the energy: {e_in} -> {e_out}"))
         if not (res["inv_err"] <= eps * scale * 4):
             v.append(("C07:dm-inverse", f"DM(-D)(DM(D)x) differs from x by {res['inv_err']:.3e}"))
@@ -270,12 +286,12 @@ def oracle(case, res):
     else:
         lossdb = case["alpha"] * case["L"]
         want = e_in * 10 ** (-lossdb / 10)
-        rtol = 2e-5 * lossdb / 4.343 + 1e-9 * n
+        rtol = 2e-5 * lossdb / 4.343 + r9 * n
         if not np.all(np.abs(e_out - want) <= rtol * np.maximum(want, 1e-300)):
             v.append(("C07:fiber-loss", f"output energy {e_out} != input*10^(-alpha L/10) {want} (alpha L = {lossdb:.3f} dB)"))
-        if not (res["add_err"] <= (eps * 4 + 1e-12) * scale):
+        if not (res["add_err"] <= (eps * 4 + r12) * scale):
             v.append(("C07:fiber-span-add", f"two spans differ from one span of summed length by {res['add_err']:.3e}"))
-        if not (res["fiber_dm_err"] <= (eps * 4 + 1e-12) * scale):
+        if not (res["fiber_dm_err"] <= (eps * 4 + r12) * scale):
             v.append(("C07:fiber-eq-dm", f"FIBER(L,beta2) differs from DM(beta2*L) by {res['fiber_dm_err']:.3e}"))
     return v
 
@@ -286,6 +302,7 @@ def features(case, res):
          "gv=" + "+".join(sorted(_gv_of(case))), "fs/R-" + ("integer" if float(_fs_of(_gv_of(case)) / _gv_of(case).get("R", 1e9)).is_integer() else "non-integer")]
     if case.get("dark"):
         f.append("dark=" + case["dark"])
+    f.append("dtype=" + case.get("dtype", "complex"))
     if case["kind"] == "fiber":
         f.append("lossy" if case["alpha"] > 0 else "lossless")
         f.append("beta3" if case["b3"] != 0 else "no-beta3")
